@@ -1,8 +1,15 @@
 package main
 
 import (
+	"bytes"
 	"fmt"
 	"go/ast"
+	"go/printer"
+	"go/token"
+	"os"
+	"path/filepath"
+	"reflect"
+	"strconv"
 	"strings"
 )
 
@@ -153,4 +160,250 @@ func callsNamed2(d *ast.FuncDecl, fn string) []*ast.CallExpr {
 		return true
 	})
 	return out
+}
+
+// ---- JSON models, handler field assignments, status codes and content types (translator) ------------------
+
+func init() { register("RestJson.v", genRestJson) }
+
+type tagEnt struct{ field, json string }
+
+// structTags returns (Go field, json name) of every field of a struct type, in source order; an embedded field is
+// reported as ("*T" or "T", "").
+func structTags(f *ast.File, name string) ([]tagEnt, error) {
+	for _, d := range f.Decls {
+		gd, ok := d.(*ast.GenDecl)
+		if !ok {
+			continue
+		}
+		for _, sp := range gd.Specs {
+			ts, ok := sp.(*ast.TypeSpec)
+			if !ok || ts.Name.Name != name {
+				continue
+			}
+			st, ok := ts.Type.(*ast.StructType)
+			if !ok {
+				return nil, fmt.Errorf("%s is not a struct", name)
+			}
+			var out []tagEnt
+			for _, fl := range st.Fields.List {
+				js := ""
+				if fl.Tag != nil {
+					raw, _ := strconv.Unquote(fl.Tag.Value)
+					js = reflect.StructTag(raw).Get("json")
+				}
+				if len(fl.Names) == 0 {
+					var b bytes.Buffer
+					printer.Fprint(&b, token.NewFileSet(), fl.Type)
+					out = append(out, tagEnt{b.String(), js})
+					continue
+				}
+				for _, n := range fl.Names {
+					out = append(out, tagEnt{n.Name, js})
+				}
+			}
+			return out, nil
+		}
+	}
+	return nil, fmt.Errorf("struct %s not found", name)
+}
+
+// literalFields returns, for the composite literals of struct type `typ` (possibly qualified) inside a function,
+// the (field, expression) pairs in source order.
+func literalFields(fset *token.FileSet, d *ast.FuncDecl, typ string) [][]tagEnt {
+	var out [][]tagEnt
+	ast.Inspect(d, func(n ast.Node) bool {
+		cl, ok := n.(*ast.CompositeLit)
+		if !ok || cl.Type == nil {
+			return true
+		}
+		tn := exprText(fset, cl.Type)
+		if tn != typ && !strings.HasSuffix(tn, "."+typ) {
+			return true
+		}
+		var ents []tagEnt
+		for _, e := range cl.Elts {
+			kv, ok := e.(*ast.KeyValueExpr)
+			if !ok {
+				continue
+			}
+			ents = append(ents, tagEnt{exprText(fset, kv.Key), strings.Join(strings.Fields(exprText(fset, kv.Value)), " ")})
+		}
+		out = append(out, ents)
+		return true
+	})
+	return out
+}
+
+func coqPairs(ps []tagEnt) string {
+	parts := make([]string, len(ps))
+	for i, p := range ps {
+		parts[i] = fmt.Sprintf("(%s, %s)", coqStr(p.field), coqStr(p.json))
+	}
+	return "[" + strings.Join(parts, ";\n   ") + "]"
+}
+
+// answerFacts: per handler, in source order: "404" for each http.NotFound, "ct:<literal or expr>" for each
+// Content-Type it sets, "json" for each web.RenderJSON.
+func answerFacts(fset *token.FileSet, d *ast.FuncDecl) []string {
+	var out []string
+	ast.Inspect(d, func(n ast.Node) bool {
+		c, ok := n.(*ast.CallExpr)
+		if !ok {
+			return true
+		}
+		t := exprText(fset, c.Fun)
+		switch {
+		case t == "http.NotFound":
+			out = append(out, "404")
+		case t == "web.RenderJSON":
+			out = append(out, "json")
+		case strings.HasSuffix(t, "Header().Set") && len(c.Args) == 2:
+			if k, ok := litString(c.Args[0]); ok && k == "Content-Type" {
+				if v, ok := litString(c.Args[1]); ok {
+					out = append(out, "ct:"+v)
+				} else {
+					out = append(out, "ct:="+exprText(fset, c.Args[1]))
+				}
+			}
+		}
+		return true
+	})
+	return out
+}
+
+func genRestJson(repo string) (string, error) {
+	_, mf, err := parseFile(repo, "pkg/rest/model/apiv1_model.go")
+	if err != nil {
+		return "", err
+	}
+	_, uf, err := parseFile(repo, "pkg/webui/mailbox_json.go")
+	if err != nil {
+		return "", err
+	}
+	fsR, rf, err := parseFile(repo, "pkg/rest/apiv1_controller.go")
+	if err != nil {
+		return "", err
+	}
+	fsU, cf, err := parseFile(repo, "pkg/webui/mailbox_controller.go")
+	if err != nil {
+		return "", err
+	}
+	_, clf, err := parseFile(repo, "pkg/rest/client/apiv1_client.go")
+	if err != nil {
+		return "", err
+	}
+	fsW, wf, err := parseFile(repo, "pkg/server/web/rest.go")
+	if err != nil {
+		return "", err
+	}
+	fsH, hf, err := parseFile(repo, "pkg/server/web/handlers.go")
+	if err != nil {
+		return "", err
+	}
+	var b strings.Builder
+	b.WriteString(coqHeader("C14: JSON models (Go field, json name) of pkg/rest/model and pkg/webui, the decoding structs of pkg/rest/client, the expression every handler puts into every field, and per handler the 404s, content types and JSON renderings in source order."))
+	for _, s := range []struct {
+		f    *ast.File
+		name string
+		coq  string
+	}{{mf, "JSONMessageHeaderV1", "tags_header_v1"}, {mf, "JSONMessageV1", "tags_message_v1"}, {mf, "JSONMessageBodyV1", "tags_body_v1"},
+		{mf, "JSONMessageAttachmentV1", "tags_attachment_v1"}, {uf, "jsonMessage", "tags_ui_message"}, {uf, "jsonAttachment", "tags_ui_attachment"},
+		{uf, "jsonMIMEError", "tags_ui_error"}, {clf, "MessageHeader", "tags_client_header"}, {clf, "Message", "tags_client_message"}} {
+		ts, err := structTags(s.f, s.name)
+		if err != nil {
+			return "", err
+		}
+		fmt.Fprintf(&b, "(* struct %s *)\nDefinition %s : list (list N * list N) :=\n  %s%%N.\n\n", s.name, s.coq, coqPairs(ts))
+	}
+	lit := func(fset *token.FileSet, f *ast.File, fn, typ, coq string) error {
+		d := findFunc(f, fn)
+		if d == nil {
+			return fmt.Errorf("%s not found", fn)
+		}
+		ls := literalFields(fset, d, typ)
+		if len(ls) != 1 {
+			return fmt.Errorf("%s: expected one %s literal, found %d", fn, typ, len(ls))
+		}
+		fmt.Fprintf(&b, "(* %s: %s{...} *)\nDefinition %s : list (list N * list N) :=\n  %s%%N.\n\n", fn, typ, coq, coqPairs(ls[0]))
+		return nil
+	}
+	for _, l := range []struct {
+		fs           *token.FileSet
+		f            *ast.File
+		fn, typ, coq string
+	}{{fsR, rf, "MailboxListV1", "JSONMessageHeaderV1", "fill_list_header"}, {fsR, rf, "MailboxShowV1", "JSONMessageV1", "fill_show_message"},
+		{fsR, rf, "MailboxShowV1", "JSONMessageBodyV1", "fill_show_body"}, {fsR, rf, "MailboxShowV1", "JSONMessageAttachmentV1", "fill_show_attachment"},
+		{fsU, cf, "MailboxMessage", "jsonMessage", "fill_ui_message"}, {fsU, cf, "MailboxMessage", "jsonAttachment", "fill_ui_attachment"},
+		{fsU, cf, "MailboxMessage", "jsonMIMEError", "fill_ui_error"}} {
+		if err := lit(l.fs, l.f, l.fn, l.typ, l.coq); err != nil {
+			return "", err
+		}
+	}
+	facts := func(fset *token.FileSet, f *ast.File, fn, coq string) error {
+		d := findFunc(f, fn)
+		if d == nil {
+			return fmt.Errorf("%s not found", fn)
+		}
+		fmt.Fprintf(&b, "Definition %s : list (list N) :=\n  %s%%N.\n", coq, coqStrList(answerFacts(fset, d)))
+		return nil
+	}
+	for _, h := range []struct {
+		fs      *token.FileSet
+		f       *ast.File
+		fn, coq string
+	}{{fsR, rf, "MailboxListV1", "ans_list"}, {fsR, rf, "MailboxShowV1", "ans_show"}, {fsR, rf, "MailboxMarkSeenV1", "ans_seen"},
+		{fsR, rf, "MailboxPurgeV1", "ans_purge"}, {fsR, rf, "MailboxSourceV1", "ans_source"}, {fsR, rf, "MailboxDeleteV1", "ans_delete"},
+		{fsU, cf, "MailboxMessage", "ans_ui_message"}, {fsU, cf, "MailboxHTML", "ans_ui_html"}, {fsU, cf, "MailboxSource", "ans_ui_source"},
+		{fsU, cf, "MailboxViewAttach", "ans_ui_attach"}} {
+		if err := facts(h.fs, h.f, h.fn, h.coq); err != nil {
+			return "", err
+		}
+	}
+	// web.RenderJSON: the content type it sets; web.Handler.ServeHTTP: the status of a handler error
+	rj := findFunc(wf, "RenderJSON")
+	sh := findFunc(hf, "Handler.ServeHTTP")
+	if rj == nil || sh == nil {
+		return "", fmt.Errorf("web.RenderJSON / web.Handler.ServeHTTP not found")
+	}
+	fmt.Fprintf(&b, "Definition ans_render_json : list (list N) :=\n  %s%%N.\n", coqStrList(answerFacts(fsW, rj)))
+	var errStatus []string
+	ast.Inspect(sh, func(n ast.Node) bool {
+		if c, ok := n.(*ast.CallExpr); ok && exprText(fsH, c.Fun) == "http.Error" && len(c.Args) == 3 {
+			errStatus = append(errStatus, exprText(fsH, c.Args[2]))
+		}
+		return true
+	})
+	fmt.Fprintf(&b, "Definition handler_error_status : list (list N) :=\n  %s%%N.\n\n", coqStrList(errStatus))
+	// the structs the C14 driver decodes the answers into (go/cmd/c14/main.go): their json names must be names of
+	// the source's structs, otherwise the driver would silently read zero values
+	if root := verifRoot(); root != "" {
+		_, df, err := parseFile(root, "go/cmd/c14/main.go")
+		if err != nil {
+			return "", err
+		}
+		for _, s := range []struct{ name, coq string }{{"jhdr", "driver_tags_message"}, {"jatt", "driver_tags_attachment"}} {
+			ts, err := structTags(df, s.name)
+			if err != nil {
+				return "", err
+			}
+			fmt.Fprintf(&b, "(* driver struct %s *)\nDefinition %s : list (list N * list N) :=\n  %s%%N.\n\n", s.name, s.coq, coqPairs(ts))
+		}
+	} else {
+		b.WriteString("Definition driver_tags_message : list (list N * list N) := [].\nDefinition driver_tags_attachment : list (list N * list N) := [].\n")
+	}
+	return b.String(), nil
+}
+
+// verifRoot: the root of the verification tree, from the -out argument (<root>/coq/Gen).
+func verifRoot() string {
+	for i, a := range os.Args {
+		if a == "-out" && i+1 < len(os.Args) {
+			d := filepath.Clean(os.Args[i+1])
+			if filepath.Base(d) == "Gen" && filepath.Base(filepath.Dir(d)) == "coq" {
+				return filepath.Dir(filepath.Dir(d))
+			}
+		}
+	}
+	return ""
 }
